@@ -55,6 +55,9 @@ type RequireModule struct {
 	runtime     *js.Runtime
 	modules     map[string]*js.Object
 	nodeModules map[string]*js.Object
+	// resolved caches what a file-or-directory request path resolved to; it is separate from modules, whose keys are the
+	// paths of the module files themselves
+	resolved map[string]*js.Object
 	// natives caches native and core modules by name; it is separate from modules, whose keys are file paths
 	natives map[string]*js.Object
 }
@@ -113,6 +116,7 @@ func (r *Registry) Enable(runtime *js.Runtime) *RequireModule {
 		runtime:     runtime,
 		modules:     make(map[string]*js.Object),
 		nodeModules: make(map[string]*js.Object),
+		resolved:    make(map[string]*js.Object),
 		natives:     make(map[string]*js.Object),
 	}
 
